@@ -219,6 +219,17 @@ func (lb *litBuilder) lit(name string, t types.Type, depth int) (string, bool) {
 			return fmt.Sprintf("(%s)(nil)", lb.tn(t)), true
 		}
 		stt, isStruct := u.Elem().Underlying().(*types.Struct)
+		if !isStruct && depth <= 3 {
+			// pointer to a non-struct (e.g. *[]T): a variable holding the pointee
+			e, ok := lb.lit(name+"->", u.Elem(), depth+1)
+			if !ok {
+				return "", false
+			}
+			lb.nvar++
+			vn := fmt.Sprintf("pv%d", lb.nvar)
+			lb.pre = append(lb.pre, fmt.Sprintf("var %s %s = %s", vn, lb.tn(u.Elem()), e))
+			return "&" + vn, true
+		}
 		if !isStruct || depth > 3 {
 			return "", false
 		}
@@ -290,7 +301,7 @@ func (lb *litBuilder) structBody(prefix string, stt *types.Struct, depth int) (s
 func tryReplay(P *Program, repo string, o *Obligation, scratch string) (bool, map[string]interface{}) {
 	info := map[string]interface{}{}
 	if o != nil && !strings.Contains(o.Name, "#inv.") {
-		if fc := P.Contracts.Funcs[o.Func]; fc != nil && hasInvariantLoops(fc) {
+		if fc := P.Contracts.Funcs[o.Func]; fc != nil && (hasInvariantLoops(fc) || o.Status != "sat") {
 			// the model may describe a loop-head state: search for an entry-state model by bounded unrolling
 			if r := refuteObligation(P, o, scratch); r != nil {
 				info["input_search"] = "bounded refutation run (loops unrolled up to 12 iterations) found an entry input"
